@@ -120,7 +120,8 @@ func (c *c04Case) wit(extra map[string]any) map[string]any {
 
 // c04QuirkMarks: a violation key that names one of these elements is attributed to the quirk.
 var c04QuirkMarks = map[string][]string{
-	"label-sentinel-in-stack":  {"Labeled"},
+	"label-sentinel-first-in-stack": {"Labeled"},
+	"label-sentinel-inside-stack":   {"Labeled"},
 	"evpn-ipmsi":               {"IPMSI", "EVPNNLRI"},
 	"flowspec-long":            {"FlowSpec", "flowspec"},
 	"mcast-flags-none-or-both": {"MulticastFlags", "PathAttributeExtendedCommunities"},
@@ -294,6 +295,31 @@ func c04ListElem(m *BGPMessage, d *vgenDiffResult) string {
 		return ""
 	}
 	return ":" + c04TypeName(list[0].NLRI)
+}
+
+// c04FixCulprit names the first attribute that two messages serialise differently.
+func c04FixCulprit(m1, m2 *BGPMessage, o *vgenOptSet) (s string) {
+	s = fmt.Sprintf("type%d", m1.Header.Type)
+	defer func() { recover() }()
+	u1, ok1 := m1.Body.(*BGPUpdate)
+	u2, ok2 := m2.Body.(*BGPUpdate)
+	if !ok1 || !ok2 {
+		return s
+	}
+	for i, a := range u1.PathAttributes {
+		if i >= len(u2.PathAttributes) {
+			return "attr-count"
+		}
+		x, _ := a.Serialize(o.Ser...)
+		y, _ := u2.PathAttributes[i].Serialize(o.Ser...)
+		if !bytes.Equal(x, y) {
+			return c04TypeName(a)
+		}
+	}
+	if len(u1.PathAttributes) != len(u2.PathAttributes) {
+		return "attr-count"
+	}
+	return "nlri"
 }
 
 // c04ParseCulprit names the attribute (and family) of a generated message whose own octets its
@@ -939,7 +965,7 @@ func c04AcceptedCase(rec *vlib.Rec, r *rand.Rand, idx int) {
 			rec.Count("accepted_half_too_long", 1)
 			return
 		}
-		c.viol("c04:accepted:serialize-error:"+c04Culprit(m1, o)+":"+c04Norm(err.Error()), fmt.Sprintf("the parser accepts these octets but the value it returns cannot be serialised: %v", err), nil)
+		c.viol("c04:accepted:serialize-error:"+c04Culprit(m1, o), fmt.Sprintf("the parser accepts these octets but the value it returns cannot be serialised: %v", err), nil)
 		return
 	}
 	m2, err, panicked := c04SilentParse(b1, o.Par)
@@ -948,7 +974,7 @@ func c04AcceptedCase(rec *vlib.Rec, r *rand.Rand, idx int) {
 		return
 	}
 	if err != nil || m2 == nil {
-		c.viol("c04:accepted:reparse-error:"+c04Norm(fmt.Sprint(err)), fmt.Sprintf("the parser accepts these octets, but not what gobgp re-serialises them to: %v", err), map[string]any{"reserialized": c04Hex(b1)})
+		c.viol("c04:accepted:reparse-error:"+c04ParseCulprit(m1, o), fmt.Sprintf("the parser accepts these octets, but not what gobgp re-serialises them to: %v", err), map[string]any{"reserialized": c04Hex(b1)})
 		return
 	}
 	c04ClearCaches(m1)
@@ -963,9 +989,9 @@ func c04AcceptedCase(rec *vlib.Rec, r *rand.Rand, idx int) {
 		return
 	}
 	if err != nil {
-		c.viol("c04:accepted:fixpoint:error:"+c04Norm(err.Error()), fmt.Sprintf("second serialisation fails: %v", err), nil)
+		c.viol("c04:accepted:fixpoint:error:"+c04Culprit(m2, o), fmt.Sprintf("second serialisation fails: %v", err), nil)
 	} else if !bytes.Equal(b1, b2) {
-		c.viol("c04:accepted:fixpoint:"+kind+":"+c04DiffRegion(b1, b2, wo), fmt.Sprintf("S(P(S(P(x)))) != S(P(x)) (first difference at octet %d)", c04FirstDiff(b1, b2)), map[string]any{"s1": c04Hex(b1), "s2": c04Hex(b2)})
+		c.viol("c04:accepted:fixpoint:"+c04FixCulprit(m1, m2, o), fmt.Sprintf("S(P(S(P(x)))) != S(P(x)) (first difference at octet %d)", c04FirstDiff(b1, b2)), map[string]any{"s1": c04Hex(b1), "s2": c04Hex(b2)})
 	}
 	// lengths of the canonical re-parse
 	if u, ok := m2.Body.(*BGPUpdate); ok {
